@@ -1964,8 +1964,13 @@ int main(int argc, char **argv)
       usleep(waited < 50 ? 200 : 2000);
       if (++waited > 15000) {  // ~30 s
         kill(r, SIGKILL);
-        waitpid(r, &status, 0);
-        status = -1;
+        struct rusage ru;
+        memset(&ru, 0, sizeof ru);
+        wait4(r, &status, 0, &ru);
+        // a case that burnt CPU all that time (no library call blocks for it: waits are virtual) is
+        // spinning - that is a verdict by CPU time, not by the wall clock of a loaded machine
+        double cpu = (double) ru.ru_utime.tv_sec + (double) ru.ru_stime.tv_sec;
+        status = cpu >= 20.0 ? -2 : -1;
         break;
       }
     }
@@ -2001,7 +2006,15 @@ int main(int argc, char **argv)
         putchar('\n');
       }
     }
-    if (status == -1) {
+    if (status == -2) {
+      printf("END %s spin\n", id);
+      if (++g_watchdogs >= 4) {
+        printf("ABORT watchdog-limit\n");
+        fflush(stdout);
+        rm_rf(g_cdir);
+        break;
+      }
+    } else if (status == -1) {
       printf("END %s watchdog\n", id);
       if (++g_watchdogs >= 4) {
         // something is systematically stuck in real time: do not burn 30 s per remaining case
